@@ -36,7 +36,25 @@ def adversarial_pair(rng, tf):
     p = rng.randint(2, 9)
     other_input = rng.choice(("high", "low", "open"))
     kind = rng.choice(("substring", "substring", "helper_sma", "helper_stdev", "helper_tr", "tf_suffix",
-                       "override_prefix", "suffix"))
+                       "override_prefix", "suffix", "helper_class", "helper_class"))
+    if kind == "helper_class":
+        # the composite's helpers are named after their owner today; a partner with the helper's CLASS,
+        # the same period and another input / rounding has the name the helper would have by default
+        pairs = (
+            ("KC", {"period": p}, "ATR", {"period": p}), ("KC", {"period": p}, "EMA", {"period": p, "input_value": other_input}),
+            ("Supertrend", {"period": p}, "ATR", {"period": p}), ("ADX", {"period": min(p, 6)}, "ATR", {"period": min(p, 6)}),
+            ("ADX", {"period": min(p, 6)}, "RMA", {"period": min(p, 6), "input_value": other_input}),
+            ("MACD", {"fast_period": p, "slow_period": p + 3, "signal_period": 2}, "EMA", {"period": p, "input_value": other_input}),
+            ("HMA", {"period": max(p, 4)}, "WMA", {"period": max(p, 4), "input_value": other_input}),
+            ("StandardDeviationThreshold", {"period": p}, "StandardDeviation", {"period": p, "input_value": other_input}),
+            ("TSI", {"period": p}, "EMA", {"period": p, "input_value": other_input}),
+            ("STOCH", {"period": p, "slow_period": 3, "smoothing_k": 3}, "SMA", {"period": 3, "input_value": other_input}),
+        )
+        ca, pa, cb, pb = rng.choice(pairs)
+        b = _spec(cb, pb)
+        if rng.random() < 0.6:
+            b["common"]["round_value"] = rng.choice((0, 1, 2, 6))
+        return _spec(ca, pa), b, kind
     if kind == "substring":
         cls = rng.choice(("SMA", "EMA", "WMA", "RMA", "RSI", "ATR", "VWMA", "StandardDeviation", "VWAP", "STOCH"))
         a = _spec(cls, {"period": p})
